@@ -285,6 +285,64 @@ def run(ctx, replay=None):
         ctx.add_part(f'M {f} {json.dumps(p)}', origins=d['origins'], winnable=d['winners'], unwinnable=len(d['losers']))
         ctx.add_counts(evaluations=d['origins'], nontrivial=d['winners'])
     ctx.log('M judged')
+    # ------------------------------------------------- T: parameter sweeps, origins from the real reset functions
+    sweep = []
+    for sh in ([(5, 7), (7, 5), (6, 9)] if ctx.quick else [(5, 7), (7, 5), (6, 9), (9, 6), (5, 13), (8, 8), (10, 7)]):
+        for layout in [(1, 2), (2, 1), (1, 3), (3, 1), (2, 2), (2, 3), (1, 1)]:
+            sweep.append(('rooms', {'shape': list(sh), 'layout': list(layout)}, BASIC, TERM_EXIT))
+            sweep.append(('memory_rooms', {'shape': list(sh), 'layout': list(layout), 'colors': ALLC, 'num_beacons': 1, 'num_exits': 2}, BASIC, TERM_EXIT))
+    for sh in [(5, 5), (5, 9), (9, 5), (7, 7), (9, 9)] + ([] if ctx.quick else [(11, 7), (7, 13), (13, 13)]):
+        for n in (1, 2, 3, 5):
+            sweep.append(('crossing', {'shape': list(sh), 'num_rivers': n, 'object_type': 'Wall'}, BASIC, TERM_EXIT))
+    for sh in [(4, 5), (4, 7), (5, 5), (6, 7), (5, 8)] + ([] if ctx.quick else [(8, 8), (4, 12), (10, 6)]):
+        sweep.append(('keydoor', {'shape': list(sh)}, steps.COMPOSITIONS['keydoor'], TERM_EXIT))
+        sweep.append(('teleport', {'shape': list(sh)}, steps.COMPOSITIONS['teleport'], TERM_EXIT))
+        sweep.append(('empty', {'shape': list(sh), 'random_agent': True, 'random_exit': True}, BASIC, TERM_EXIT))
+    for sh in [(5, 5), (5, 7), (7, 5)] + ([] if ctx.quick else [(6, 9), (9, 5)]):
+        sweep.append(('memory', {'shape': list(sh), 'colors': ['RED', 'GREEN']}, BASIC, TERM_EXIT))
+    from harness import resets
+    jobs, meta = [], []
+    nsw = 8 if ctx.quick else 60
+    for si, (f, p, comps, term) in enumerate(sweep):
+        origins, seen = [], set()
+        for sd in range(nsw):
+            outcome, st = resets.call_reset(f, p, np.random.default_rng(ctx.seed * 7919 + si * 131 + sd))
+            if outcome != 'ok':
+                break
+            k = json.dumps(st, sort_keys=True)
+            if k not in seen:
+                seen.add(k)
+                origins.append(st)
+        if not origins:
+            continue
+        pf = os.path.join(ctx.work, f'win_sweep_{si}.json')
+        with open(pf, 'w') as fh:
+            json.dump({'f': f, 'p': p, 'comps': comps, 'term': term, 'goal': goal_of(f), 'origins': origins, 'maxdepth': 120, 'shard': 0, 'nshards': 1}, fh)
+        jobs.append(dict(module='MC_Win', cfg=cfg_file, env={'PARAM_FILE': pf}, workers=1, timeout=3000, check=False, heap='4g'))
+        meta.append((f, p, comps, term, origins))
+    n_sw = n_sw_win = 0
+    for (f, p, comps, term, origins), res in zip(meta, run_many(jobs, parallel=16)):
+        label = f'{f}{json.dumps(p)}'
+        if res.violated == 'InvAgentOK':
+            ctx.violation(f'AgentOK fails in the reachable graph of {label}', {'kind': 'model', 'tail': res.raw[-2000:]})
+            continue
+        if res.rc != 0 or not res.find('ORIGINS'):
+            raise RuntimeError(f'MC_Win failed on {label}:\n' + res.raw[-3000:])
+        ctx.add_tlc(res, f'MC_Win[file] sweep {label}')
+        dyn = RealDynamics(comps, term, goal_of(f))
+        n_sw += len(origins)
+        wins = res.find('WIN')
+        n_sw_win += len(wins)
+        for t in wins[:3]:
+            n_plans += 1
+            if not dyn.follow(origins[t[1] - 1], t[2]):
+                ctx.violation(f'{label}: plan found on the specification fails on the real code from [{sst(origins[t[1] - 1])}] plan={t[2]}',
+                              {'kind': 'plan', 'f': f, 'p': p, 'state': origins[t[1] - 1], 'plan': t[2]})
+        for t in res.find('LOSE'):
+            judge_loser(ctx, 'sweep ' + label, f, p, origins[t[1] - 1], dyn)
+    ctx.add_counts(evaluations=n_sw, nontrivial=n_sw_win)
+    ctx.add_part('T parameter sweeps (origins from the real reset functions)', parameter_sets=len(meta), seeds=nsw, distinct_origins=n_sw, winnable=n_sw_win)
+    ctx.log('sweeps done')
     # ------------------------------------------------- T: origins from the real reset functions
     files = config.shipped_files()
     nseeds = 25 if ctx.quick else 300
